@@ -471,6 +471,10 @@ ANTICIPATED = [
     ('Matrix', 'sin([1,2])', 'vector into a scalar function', ('ArgumentShapeError',)),
     ('Matrix', 'det([1,2])', 'vector into det', ('ArgumentShapeError',)),
     ('Matrix', 'cross([1,2],[3,4])', 'cross product of 2-vectors', ('ArgumentShapeError',)),
+    ('Matrix', 'det(2)', 'scalar into det', ('ArgumentShapeError',)),
+    ('Matrix', 'trace(det(A))', 'scalar into trace', ('ArgumentShapeError',)),
+    ('Matrix', 'det(2*i)', 'complex scalar into det', ('ArgumentShapeError',)),
+    ('Matrix', 'cross(1,[1,2,3])', 'scalar into cross', ('ArgumentShapeError',)),
     ('Matrix', '[1,[2,3]]', 'ragged array', ('UnableToParse',)),
     ('Matrix', '[1,2]*[1,2]*[1,2]', 'triple vector product', ('CalcError',)),
     ('Matrix', '[[[1,2],[3,4]],[[5,6],[7,8]]]', 'tensor where forbidden', ('UnableToParse',)),
